@@ -4,7 +4,7 @@
    and the global silence statement over all schedules; both are checked on every run (check_C10).
    Known finding F11 (SimpleService.stop_announce) is outside the model. *)
 From PS Require Import Lib.Base Generated.Consts Model.SdTypes Model.Config Model.Session Model.StackTypes Model.Stack
-  Model.StackIO Proofs.StackOpsProofs Proofs.WorldInv Proofs.WorldTime.
+  Model.StackIO Proofs.StackOpsProofs Proofs.WorldInv Proofs.WorldTime Proofs.WorldDone.
 
 Theorem C10_initial_delay_in_window : forall t w tk inst,
   get_task t w = Some tk -> tk_done tk = false -> tk_must_cancel tk = false -> tk_kind tk = TOffer inst -> tk_pc tk = 0 ->
@@ -54,6 +54,18 @@ Proof. exact task_sleep_arms_deadline. Qed.
 Theorem C10_wakeups_run_exactly_at_their_deadline : forall sc, Tinv (fst (run_scenario sc)).
 Proof. exact reachable_on_time. Qed.
 
+(* a completed run to t_end: every task still asleep (an offer task between two transmissions) has its wake-up timer
+   pending with a deadline after t_end - no scheduled offer that was due has been skipped *)
+Theorem C10_completed_run_leaves_no_overdue_wakeup : forall fuel events t_end rv w w', G w ->
+  run fuel events t_end rv w = (w', true) ->
+  forall t tid, sleep_of w' t = Some tid -> exists when, In (when, tid, HSleepDone t) (timers w') /\ t_end < when.
+Proof.
+  intros fuel events t_end rv w w' Hg Hrun t tid Hs. destruct (run_complete _ _ _ _ _ _ Hrun) as [Hr Hl].
+  apply (quiescent_sleeper t_end w'); try assumption.
+  replace w' with (fst (run fuel events t_end rv w)) by (rewrite Hrun; reflexivity). apply G_run. exact Hg.
+Qed.
+
+Print Assumptions C10_completed_run_leaves_no_overdue_wakeup.
 Print Assumptions C10_initial_delay_in_window.
 Print Assumptions C10_sleep_arms_exactly_the_delay.
 Print Assumptions C10_wakeups_run_exactly_at_their_deadline.
